@@ -31,6 +31,10 @@ func main() {
 	switch *stream {
 	case "cast":
 		rep = castStream(*seed, *tier, *out, pm, *focus)
+	case "stream":
+		rep = streamStream(*seed, *tier, *out, pm, *focus)
+	case "template":
+		rep = templateStream(*seed, *tier, *out, pm, *focus)
 	case "rowops":
 		rep = rowopsStream(*seed, *tier, *out, pm, *focus)
 	default:
